@@ -27,6 +27,7 @@ type c09Prog struct {
 	Shared   bool       `json:"shared,omitempty"`   // the caller hands the SAME head slice to every load instead of a copy
 	Progress bool       `json:"progress,omitempty"` // pass a (drained) progress channel
 	NoIO     bool       `json:"noIO,omitempty"`     // default codec: leave LogOptions.IO unset
+	Rival    int        `json:"rival,omitempty"`    // k > 0: while an ungated load runs, another load of the same heads runs in the same process and gives up (deadline) after about k block reads; every read takes 1 ms meanwhile. What the rival does is no business of the load under test
 	Earlier  int        `json:"earlier,omitempty"`  // 0: the log is published once; k > 0: every replica also published after each k-th operation of the history (and before the final merges)
 }
 
@@ -56,6 +57,9 @@ func genC09(t *rapid.T) c09Prog {
 	p.Progress = rapid.IntRange(0, 2).Draw(t, "progress") == 0
 	p.NoIO = rapid.IntRange(0, 2).Draw(t, "noIO") == 0
 	p.Earlier = rapid.SampledFrom([]int{0, 0, 1, 2, 3}).Draw(t, "earlierPublications")
+	if rapid.IntRange(0, 5).Draw(t, "withRival") == 4 {
+		p.Rival = rapid.IntRange(1, 12).Draw(t, "rival")
+	}
 	n := rapid.IntRange(1, 3).Draw(t, "nloads")
 	for i := 0; i < n; i++ {
 		p.Loads = append(p.Loads, genLoadSpec(t))
@@ -140,6 +144,7 @@ func runC09(tb ev.TB, p c09Prog) ev.Result {
 	wantValues := w.Reg.RefSort(w.Order, r.Model)
 	srcValues := world.Hashes(r.Log.Values())
 	nt := false
+	rivals := 0
 	var classes []string
 	var reported []string
 	extra := loadExtra{SortFn: p.FSort, Progress: p.Progress, Reported: &reported, DefaultIO: p.NoIO}
@@ -161,7 +166,26 @@ func runC09(tb ev.TB, p c09Prog) ev.Result {
 		}
 		var lerr error
 		var got *loadedLog
+		rivalDone := make(chan struct{})
+		if p.Rival > 0 && !spec.Gated {
+			const read = time.Millisecond
+			w.Store.SetDelay(read)
+			go func() {
+				defer close(rivalDone)
+				rctx, cancel := context.WithTimeout(ctx, time.Duration(p.Rival)*read+read/2)
+				defer cancel()
+				_, _ = doLoad(rctx, w.Store.API(), w, "entries", manifest, jsonLog, append([]iface.IPFSLogEntry(nil), heads...), hash, nil, spec.Concurrency, nil, 0, loadExtra{})
+			}()
+			time.Sleep(read / 2) // the rival asks first
+			rivals++
+		} else {
+			close(rivalDone)
+		}
 		res := gatedOrPlain(tb, coll, w, spec, func() {
+			defer func() {
+				<-rivalDone
+				w.Store.SetDelay(0)
+			}()
 			l, err := doLoad(ctx, w.Store.API(), w, loader, manifest, jsonLog, startEntries(p.Shared, heads), hash, nil, spec.Concurrency, nil, 0, extra)
 			lerr = err
 			if err == nil {
@@ -224,6 +248,9 @@ func runC09(tb ev.TB, p c09Prog) ev.Result {
 	if p.World.Continued > 0 {
 		classes = append(classes, "continues-another-log")
 	}
+	if rivals > 0 {
+		classes = append(classes, "with-a-rival-load-that-gives-up")
+	}
 	return ev.Result{NonTrivial: nt, Classes: classes}
 }
 
@@ -237,7 +264,7 @@ type loadedLog struct {
 
 func TestC09(t *testing.T) {
 	c := ev.Get("C09")
-	c.Rule = "a generated multi-replica program (default or link-key codec, both orderings, skip references from pointer counts up to 64) builds log states - in about one program in five the log continues, under its own id, a history of 1-9 entries written under another log id, which every replica holds from the start; one replica state is reloaded 1-3 times, each with a generated loader (manifest / JSON heads / head entries / head hash when single-headed), fetch concurrency in {default,1,2,3,16} and - in 3 of 4 loads - a gated store whose outstanding block reads are released in a generated order. The loaded log must have the same id, entry set (== model set), heads (== unreferenced in the model) and values (== reference sort when strict-total, permutation otherwise). Non-trivial = source with >= 2 heads or skip references and at least one read completed out of issue order; distinct = distinct program."
+	c.Rule = "a generated multi-replica program (default or link-key codec, both orderings, skip references from pointer counts up to 64) builds log states - in about one program in five the log continues, under its own id, a history of 1-9 entries written under another log id, which every replica holds from the start; one replica state is reloaded 1-3 times, each with a generated loader (manifest / JSON heads / head entries / head hash when single-headed), fetch concurrency in {default,1,2,3,16} and - in 3 of 4 loads - a gated store whose outstanding block reads are released in a generated order. In one program in six the ungated loads run next to a rival load of the same heads in the same process that gives up after 1-12 block reads (reads take 1 ms then). The loaded log must have the same id, entry set (== model set), heads (== unreferenced in the model) and values (== reference sort when strict-total, permutation otherwise). Non-trivial = source with >= 2 heads or skip references and at least one read completed out of issue order; distinct = distinct program."
 	c.Assumptions = []string{"completion orders are produced by a polling controller (settle window 300µs): every order it produces is legal, but a given schedule may map to different orders on a loaded machine; the realised order is stored in the replay file and enforced on replay", "the legacy codec is not reloaded (it cannot read back the v2 entries it writes)"}
 	ev.Check(t, "C09", genC09, runC09)
 }
